@@ -73,6 +73,31 @@ class ExcWorld:
         return self.it.any_int_value(self.attr[a].val)
 
 
+# registered members of http.HTTPStatus in the interpreter the repository runs under (CPython 3.12)
+HTTP_STATUS_CODES = [100, 101, 102, 103, 200, 201, 202, 203, 204, 205, 206, 207, 208, 226, 300, 301, 302, 303, 304, 305, 307, 308, 400, 401, 402,
+                     403, 404, 405, 406, 407, 408, 409, 410, 411, 412, 413, 414, 415, 416, 417, 418, 421, 422, 423, 424, 425, 426, 428, 429, 431,
+                     451, 500, 501, 502, 503, 504, 505, 506, 507, 508, 510, 511]
+
+
+def http_status(it_, args, kwargs, node):
+    """http.HTTPStatus(value): the member whose value equals `value` (an int subclass), ValueError otherwise"""
+    v = it_.force(args[0])
+    if isinstance(v, (bool, int, float)):
+        if v in HTTP_STATUS_CODES:
+            return int(v)
+        it_.raise_builtin("ValueError", node)
+    if isinstance(v, Sym) and v.ty in ("int", "real"):
+        hit, val = z3.Or([v.t == c for c in HTTP_STATUS_CODES]), v.t
+    elif isinstance(v, AnyV):
+        isnum, val, nan, pinf, ninf = it_.any_num_kind(v)
+        hit = z3.And(isnum, z3.Not(nan), z3.Not(pinf), z3.Not(ninf), z3.Or([val == c for c in HTTP_STATUS_CODES]))
+    else:
+        it_.raise_builtin("ValueError", node)
+    if not it_.path.branch(hit):
+        it_.raise_builtin("ValueError", node)
+    return ops.wrap_int(val if val.sort() == z3.IntSort() else z3.ToInt(val))
+
+
 def install(it):
     stdlib.install_clock(it)
 
@@ -85,6 +110,8 @@ def install(it):
             cache[k] = fstr("lower")
         return cache[k]
 
+    it.ext_models["http.HTTPStatus"] = http_status
+    stdlib.trusted("http.HTTPStatus(x)", "CPython 3.12 table of registered status codes; lookup by value equality, ValueError otherwise")
     it.ext_models["str.lower"] = lower
     it.ext_models["str.startswith"] = lambda it_, obj, args, node: ops.wrap_bool(z3.PrefixOf(sterm(args[0]), sterm(obj)))
     stdlib.trusted("str.lower / type(e).__name__", "uninterpreted: some string; `in` is substring containment on it")
@@ -134,7 +161,10 @@ def any_value_from_model(it, m, v):
     if tag == "Bool":
         return bool(val(m, v.b))
     if tag == "Int":
-        return val(m, v.i)
+        x = val(m, v.i)
+        if isinstance(x, int) and abs(x) >= 10 ** 4000:  # not representable in JSON / by str(): replayed as +-10**5000
+            return {"__huge_int__": True, "negative": x < 0}
+        return x
     if tag == "Float":
         k = val(m, v.fk)
         return {1: float("inf"), 2: float("-inf"), 3: float("nan")}.get(k, val(m, v.fv))
@@ -143,6 +173,8 @@ def any_value_from_model(it, m, v):
     if tag == "Bytes":
         return b"x" if val(m, v.truthy) else b""
     if tag == "Container":
+        if getattr(v, "str_raises", None) is not None and val(m, v.str_raises) is True and val(m, v.truthy) is True:
+            return {"__container_holding_huge_int__": True}
         return [0] if val(m, v.truthy) else []
     return "<object>"
 
@@ -232,9 +264,12 @@ def t_coerce_status(it):
                      z3.And(no_attr, z3.ForAll([j], z3.Implies(z3.And(0 <= j, j < w.args.length), z3.Not(coerce_match(it, w.args.elem(j)))))), prop=P)
             p.cover(f"{key}/returns-None")
             return
-        p.oblige(f"{key}/ensures/returns-an-int", isinstance(res, AnyV) and bool(z3.is_true(z3.simplify(z3.BoolVal(True)))), prop=P)
-        iv = it.any_int_value(res)
-        p.oblige(f"{key}/ensures/result-is-int-typed", it.any_is(res, "Bool", "Int"), prop=P)
+        int_like = isinstance(res, AnyV) or (isinstance(res, Sym) and res.ty == "int") or isinstance(res, int)
+        p.oblige(f"{key}/ensures/returns-an-int", int_like, prop=P)
+        if not int_like:
+            return
+        iv = it.any_int_value(res) if isinstance(res, AnyV) else ops.term(res)
+        p.oblige(f"{key}/ensures/result-is-int-typed", it.any_is(res, "Bool", "Int") if isinstance(res, AnyV) else True, prop=P)
         # first of status/status_code/code that is an int, else the first matching arg
         s, sc, c = (w.isint(a) for a in ("status", "status_code", "code"))
         expect_attr = z3.If(s, w.intval("status"), z3.If(sc, w.intval("status_code"), w.intval("code")))
@@ -319,7 +354,7 @@ def install_regex(it):
     it.env_models["regex.search"] = search
     it.env_models["match.group"] = lambda it_, fn, a, k, n: fn.attrs["g"]
     stdlib.trusted("re.Pattern.search", "returns None or a match whose group(1) is a 5-character string; does not raise on str input")
-    stdlib.trusted("str(x)", "returns the string itself for str, some string for other built-in values; does not raise")
+    stdlib.trusted("str(x)", "returns the string itself for str, some string for other built-in values; raises ValueError exactly for an int beyond CPython's str() digit limit (4300 digits) or a container holding one, nothing otherwise")
 
 
 def t_extract_sqlstate(it, mod):
@@ -362,6 +397,7 @@ def t_sqlstate(it, which):
     def h(it):
         w = ExcWorld(it)
         p = it.path
+        p.replay_spec = lambda m: exc_from_model(it, w, m, which)
         r = call_catch(it, FuncV(it.tree.func(key)), [w.exc])
         if r[0] == "exc":
             p.oblige(f"{key}/raises/none", False, prop=P, detail=repr(r[1]))
@@ -369,7 +405,11 @@ def t_sqlstate(it, which):
         res = r[1]
         p.oblige(f"{key}/ensures/returns-ErrorClass", isinstance(res, EnumVal) and res.cls.name == "ErrorClass", prop=P)
         code = p.ghost.get("sqlstate_code")
-        if code is None:
+        if p.ghost.get("sqlstate_unprintable"):
+            # str(sqlstate) itself is refused by CPython (int beyond the str() digit limit): not a code of the table;
+            # the property only asks for some ErrorClass, without raising
+            p.cover(f"{key}/sqlstate-unprintable")
+        elif code is None:
             expect = classify_spec(it, w, True) if which == "sqlstate" else ec(it, "UNKNOWN")
             p.oblige(f"{key}/ensures/no-sqlstate=>fallback", res.t == expect, prop=P)
             p.cover(f"{key}/no-sqlstate")
@@ -381,7 +421,11 @@ def t_sqlstate(it, which):
     orig = it.to_str
 
     def to_str(v, node):
-        r = orig(v, node)
+        try:
+            r = orig(v, node)
+        except PyRaise:
+            it.path.ghost["sqlstate_unprintable"] = True
+            raise
         it.path.ghost["sqlstate_code"] = sterm(r)
         return r
 
@@ -441,7 +485,7 @@ TASKS = [
     for (m, f, l) in OPTIONAL
 ]
 for _t in TASKS:
-    if _t.name.startswith("classify."):
+    if _t.name.startswith("classify.") or _t.name.endswith(("sqlstate_classifier", "pyodbc_classifier")):
         _t.replay_script = "model_replay.py"
     _t.assumptions = ["C19: exception attributes are absent or any built-in value (sort Any); objects' __bool__/__eq__/__str__ do not raise; "
                       "str.lower and class names are uninterpreted strings; optional-library classifiers are claimed only with the library absent"]
